@@ -190,6 +190,23 @@ def peer_chosen_cid(credits: int, scredits: int, enhanced: int, peer_cid: int, m
         return cid == peer_cid and payload == b'\x03\x00\x01\x02\x03' and ch.credits == before + 1 and credits >= 2
 
 
+@harness(pre=['1 <= n <= 40 and 0 <= fill <= 255'], family='transfer', twin=True, kernels=K, timeout=(60, 200), grid={'own': [5, 23]},
+         bounds='asymmetric MTUs: the receiver announced MTU 40, the sender only 5 or 23 (so the receiver\'s peer_mtu is smaller than its own mtu); one SDU of 1..40 bytes (symbolic length and fill), MPS 23, ample credits: delivered intact (the receiver judges incoming SDUs by ITS OWN MTU)')
+def receiver_mtu_larger_than_senders(n: int, fill: int, own: int) -> bool:
+    tx_m, rx_m = Mgr(), Mgr()
+    tx = mk(tx_m, own, 23, 10, 40, 23, 10)
+    rx = mk(rx_m, 40, 23, 10, own, 23, 10)
+    got = []
+    rx.sink = got.append
+    data = bytes([fill for _ in range(n)])
+    tx.write(data)
+    for f in tx_m.frames:
+        if len(f) > 23:
+            return False
+        rx.on_pdu(f)
+    return got == [data]
+
+
 @harness(pre=['1 <= max_credits <= 12 and 0 <= frames <= 14'], family='receiver', kernels=K, timeout=(60, 200),
          bounds='receiver side: peer max credits 1..12 (symbolic), 0..14 one-byte SDUs received (symbolic): the ledger never exceeds the maximum, credits are returned before the sender starves, total granted = initial + returned')
 def receiver_replenishes(max_credits: int, frames: int) -> bool:
